@@ -40,6 +40,7 @@ type AttemptPlan struct {
 	StallAfterStop bool // after a cancel / handler / mapper cause the network delivers nothing more
 	ImmediateError bool // the caller calls Error() right after Stream returns, on the same goroutine
 	LogYield       bool // every Errorf/Infof/Print of the library is a scheduling point (parking logger)
+	WriteYield     bool // writes to the master park until released (slow network towards the master)
 	ForeignCtx     bool // the caller's context is not a standard-library context type
 	EnvErrKind     int  // which error value the failing handler / mapper returns (0 plain, 1 context.Canceled, 2 DeadlineExceeded, 3 io.EOF, 4 wrapped cancel)
 	EnvCancels     bool // a context-aware handler / mapper: the caller's context is cancelled just before it returns its error
@@ -95,6 +96,7 @@ type AttemptResult struct {
 	DumpServed    Pos
 	PoisonDelivered bool // the whole column-count-change unit (C15) reached the client
 	StepCapped      bool // harness step budget exhausted while progress was still being made
+	PoisonRowsDelivered bool // a rows event of the poison unit reached the client
 }
 
 // Run is the mutable state of one simulated run.
@@ -184,6 +186,9 @@ func (r *Run) dial(ctx context.Context) (net.Conn, error) {
 		r.att.HadConn = true
 	}
 	c := newSimConn(m)
+	if r.att != nil && r.free == nil {
+		c.writeYield = r.att.Plan.WriteYield
+	}
 	if r.dialPlan == stopDumpWriteErr {
 		c.failWriteAt = 3 // handshake response, SET query, dump request
 	}
@@ -946,6 +951,9 @@ func (r *Run) runAttempt(idx int, plan AttemptPlan) bool {
 		if nLogs > 0 {
 			acts = append(acts, 3)
 		}
+		if conn != nil && conn.writeIsParked() {
+			acts = append(acts, 4)
+		}
 		if len(acts) == 0 && canDeliver {
 			acts = append(acts, 0)
 		}
@@ -976,6 +984,8 @@ func (r *Run) runAttempt(idx int, plan AttemptPlan) bool {
 				// all at once and without a tape draw: how many goroutines sit in the
 				// logger during teardown depends on the driver's Close-vs-reader race
 				r.releaseAllLogs()
+			case 4:
+				conn.releaseWrite()
 			}
 			continue
 		}
@@ -1073,8 +1083,13 @@ func (r *Run) runAttempt(idx int, plan AttemptPlan) bool {
 		att.PacketsDeliv = r.master.packetsDelivered()
 		att.DumpServed = r.master.served
 		for k := 0; k < att.PacketsDeliv && k < len(r.master.packets); k++ {
-			if e := r.master.packets[k].ev; e != nil && e.Unit >= 0 && sc.Hist.Units[e.Unit].Poison && e == sc.Hist.Units[e.Unit].Tx.Commit {
-				att.PoisonDelivered = true
+			if e := r.master.packets[k].ev; e != nil && e.Unit >= 0 && sc.Hist.Units[e.Unit].Poison {
+				if e == sc.Hist.Units[e.Unit].Tx.Commit {
+					att.PoisonDelivered = true
+				}
+				if e.Type >= evWriteRowsV1 && e.Type <= evDeleteRowsV2 && e.Type != evIncident && e.Type != evHeartbeat {
+					att.PoisonRowsDelivered = true
+				}
 			}
 		}
 	}
@@ -1260,11 +1275,16 @@ func (r *Run) releaseAllLogs() int {
 	r.mu.Lock()
 	chs := r.parkedLogs
 	r.parkedLogs = nil
+	conn := r.conn
 	r.mu.Unlock()
 	for _, ch := range chs {
 		close(ch)
 	}
-	return len(chs)
+	n := len(chs)
+	if conn != nil && conn.releaseWrite() {
+		n++ // a parked write is released together with parked log calls (fair environment)
+	}
+	return n
 }
 
 // release drops the large buffers of a finished run (history copies on the
